@@ -10,7 +10,7 @@ from contracts import c14
 def main(tier):
     rep = check.Report("C14", tier, "other")
     reg = vx.Registry()
-    cs = c14.contracts()
+    cs = c14.contracts() + c14.lua_contracts()
     for c in cs:
         reg.add(c)
     c14.setup_registry(reg)
